@@ -244,7 +244,7 @@ def run_slurm(rng, malformed=False):
                     mon.append(("absent-is-none",
                                 "slurm job %s does not appear in the output but is reported %s"
                                 % (jid, res.name)))
-            else:
+            elif not malformed:
                 classify_monitor("slurm", jid, seen[jid].split(" ")[0], res, mon)
         ok_possible = sqrc == 0 or (sacct_called and sarc == 0)
         if code.name == "OK" and not ok_possible:
@@ -285,7 +285,9 @@ def run_lsf(rng, malformed=False):
                     mon.append(("absent-is-none",
                                 "lsf job %s does not appear in the output but is reported %s"
                                 % (jid, res.name)))
-            else:
+            elif not malformed:
+                # (in the malformed stream the generator's own row list is not
+                # the parser's: rows with stray separators are still rows)
                 classify_monitor("lsf", jid, seen[jid][0], res, mon)
         if code.name == "OK" and rc != 0:
             mon.append(("failing-query-not-ok", "bjobs rc=%d but code OK" % rc))
